@@ -102,8 +102,10 @@ def rule_signal(ctx, rule='C10.SIGNAL'):
                 loc=ctx.loc(f, f.node))
         return 1
     exempt = set()
+    bloops = [p for p, _f in q.enclosing_chain(q.stmt(backs[0]), f.node) if isinstance(p, ast.For)]
     for s in f.own_nodes():
-        if isinstance(s, ast.If) and norm(s.test) == EXEMPT_RETURN_TEST:
+        if isinstance(s, ast.If) and bloops and isinstance(s.test, ast.Compare) and isinstance(s.test.ops[0], ast.NotEq) and \
+                {norm(s.test.left), norm(s.test.comparators[0])} == {norm(bloops[0].target), 'hash_to_hex_str(self.state.tip)'}:
             for r in s.body:
                 if isinstance(r, ast.Return):
                     exempt.add(cfg.node(r))
@@ -184,7 +186,8 @@ def rule_byheight(ctx, rule='C10.BYHEIGHT'):
               'by-height reads are not refused above the flushed state height: hashes left over from an orphaned or unflushed '
               'block are served (and then cached by height)', loc=ctx.loc(f, f.node))
     g = ctx.func('db', 'DB.read_headers')
-    inner = g.nested.get('read_headers')
+    inners = [x for x in g.nested.values() if any(isinstance(c, ast.Call) and q.callee_name(ctx, x, c) == 'self.headers_file.read' for c in x.own_nodes())]
+    inner = inners[0] if len(inners) == 1 else None
     ok2 = False
     if inner is not None:
         asg = [s for s in inner.own_nodes() if isinstance(s, ast.Assign) and isinstance(s.value, ast.Call) and norm(s.value.func) == 'max']
